@@ -38,7 +38,14 @@ pub fn gen_test_should_have_valid_default_value(
     generics: &Generics,
     maybe_default_value: &Option<syn::Expr>,
     has_validation: bool,
+    derives_default: bool,
 ) -> Option<TokenStream> {
+    if !derives_default {
+        // `default = ..` may be given without deriving `Default`: then there is no `::default()`
+        // to call and the test must not be generated (it would break the build of user's tests).
+        return None;
+    }
+
     if !has_validation {
         // If there is no validation, then every possible default value will be valid,
         // so there is no need to generate the test.
